@@ -561,4 +561,30 @@ example :
     let R : Option Operand := some (.poly [[⟨0, 0⟩, ⟨2, 0⟩, ⟨2, 1⟩, ⟨4, 1⟩, ⟨5/2, 2⟩, ⟨1, 3⟩, ⟨1, 2⟩, ⟨0, 2⟩, ⟨0, 0⟩]])
     certCheck (1 / 1000000) .union A B R (certEvents A B R) = true := by decide +kernel
 
+/-- **C01, "lies in" as answered by the library (observation point `Point.Within` on results).**  For an
+accepted case the Spec's judgement of a library answer `s` at a point with clear margin —
+`withinAgrees`: `s` is `Inside` exactly when the truth table of `op` holds there — is the same as
+comparing `s` with the even–odd membership of the point in the result `R` itself: on certified cases
+the probe check of the judge tests `Point.Within(result)` against the result's own point set. -/
+theorem C01_library_within_judged (m : Rat) (op : Op) (A B : Operand) (R : Option Operand) (evs : List Rat)
+    (h : certCheck m op A B R evs = true) (p : P)
+    (cA : clearOf m A.rings p = true) (cB : clearOf m B.rings p = true) (s : WStatus) :
+    withinAgrees op A B p s = (s == (if memberRes R p then WStatus.inside else WStatus.outside)) := by
+  unfold withinAgrees
+  rw [← C01_certificate_sound m op A B R evs h p cA cB]
+
+/-- `withinCheck` finds no offending probe ⇒ every probe with clear margin agrees with the statement -/
+theorem withinCheck_none (m : Rat) (op : Op) (A B : Operand) (probes : List (P × WStatus))
+    (h : withinCheck m op A B probes = none) (p : P) (s : WStatus) (hp : (p, s) ∈ probes)
+    (cA : clearOf m A.rings p = true) (cB : clearOf m B.rings p = true) :
+    withinAgrees op A B p s = true := by
+  unfold withinCheck at h
+  have := List.find?_eq_none.1 h (p, s) hp
+  simpa [cA, cB] using this
+
+/-- non-vacuity: unit square ∪ far square; the library must say `Inside` at (1/2, 1/2), and `Outside` is refused -/
+example : withinAgrees .union (.poly [[⟨0, 0⟩, ⟨1, 0⟩, ⟨1, 1⟩, ⟨0, 1⟩]]) (.box ⟨5, 5⟩ ⟨6, 6⟩) ⟨1/2, 1/2⟩ .inside = true ∧
+    withinAgrees .union (.poly [[⟨0, 0⟩, ⟨1, 0⟩, ⟨1, 1⟩, ⟨0, 1⟩]]) (.box ⟨5, 5⟩ ⟨6, 6⟩) ⟨1/2, 1/2⟩ .outside = false := by
+  decide +kernel
+
 end GeomV.C01
